@@ -4,6 +4,7 @@ package c01
 
 import (
 	"fmt"
+	"os"
 	"strings"
 	"testing"
 	"verif/fold"
@@ -155,6 +156,14 @@ func run(r *vt.Run, t vt.TB, s spec) {
 				r.Violation(t, s, "rows-despite-uninterpretable-definition", "table %q: Schema fails (%v) but Select delivered %d rows", name, schemaErr, len(got))
 				return
 			}
+			// it has to be the table's own definition that is not understood:
+			// an index the library cannot interpret is left out (C10), it does
+			// not make the table unreadable. The same table without its
+			// CREATE INDEX statements must be refused as well.
+			if msg := refusedBecauseOfAnIndex(r, t, path, name); msg != "" {
+				r.Violation(t, s, "table-unreadable-because-of-an-index", "table %q (%s): Schema/Select fail with %v / %v; %s", name, ts.Def.SQL(), schemaErr, selErr, msg)
+				return
+			}
 			continue
 		}
 		if isCore(ts) {
@@ -264,3 +273,52 @@ func isCore(ts e1.TableSpec) bool {
 }
 
 var _ = val.Null
+
+// refusedBecauseOfAnIndex: name is refused in the file at path. SQLite drops
+// the table's explicit indexes in a copy of the file; if the library accepts
+// the table there, the message says which indexes were dropped.
+func refusedBecauseOfAnIndex(r *vt.Run, t vt.TB, path, name string) string {
+	idx, err := env.O.Query("q", "SELECT name FROM sqlite_master WHERE type = 'index' AND sql IS NOT NULL AND lower(tbl_name) = lower(?)", val.Text(name).AsStr())
+	if err != nil {
+		r.Harness(t, "index list: %v", err)
+	}
+	if len(idx) == 0 {
+		return ""
+	}
+	r.Count("refused-tables-retried-without-their-indexes", 1)
+	cp := env.NewPath()
+	defer sqdb.Remove(cp)
+	b, err := os.ReadFile(path)
+	if err != nil {
+		r.Harness(t, "copy: %v", err)
+	}
+	if err := os.WriteFile(cp, b, 0o644); err != nil {
+		r.Harness(t, "copy: %v", err)
+	}
+	if err := env.O.Open("cp", cp); err != nil {
+		r.Harness(t, "open copy: %v", err)
+	}
+	var dropped []string
+	for _, row := range idx {
+		in := string(row[0].B)
+		if err := env.O.Exec("cp", "DROP INDEX "+e1.QIdent(in)); err != nil {
+			env.O.Close("cp")
+			r.Harness(t, "drop index %s: %v", in, err)
+		}
+		dropped = append(dropped, in)
+	}
+	env.O.Close("cp")
+	d2, err := sqlittle.Open(cp)
+	if err != nil {
+		return ""
+	}
+	defer d2.Close()
+	if _, err := sqlittle.VerifLow(d2).Schema(name); err != nil {
+		return ""
+	}
+	rows := 0
+	if err := d2.Select(name, func(sqlittle.Row) { rows++ }); err != nil {
+		return ""
+	}
+	return fmt.Sprintf("in a copy of the file from which SQLite dropped the indexes %q the same table is accepted (%d rows)", dropped, rows)
+}
